@@ -373,6 +373,15 @@ func (cur *FieldMask) GetPath(desc *thrift_reflection.TypeDescriptor, path strin
 				if !cur.All() {
 					return nil, false
 				}
+				// '*' names no single field: continue below it the way addPath does
+				// (with the first field's type) instead of dereferencing a nil field
+				fs := st.GetFields()
+				if len(fs) == 0 || fs[0].GetType() == nil {
+					return nil, false
+				}
+				desc = fs[0].GetType()
+				cur = cur.all
+				continue
 			} else {
 				return nil, false
 			}
